@@ -52,6 +52,9 @@ int main(int argc, char** argv) {
             int same = r0 == rng_state();
             VH_B; vh_i("seq", seq++); VH_C; vh_s("e", "Gate"); VH_C; vh_s("g", g.c_str()); VH_C; vh_i("d", d); VH_C; vh_i("a", a); VH_C; vh_i("b", b); VH_C; vh_i("c", c); VH_C; vh_i("v", v); VH_C;
             vh_i("out", q24(lwePhase(D, m.sk->lwe_key))); VH_C; vh_i("rng", same); VH_C; m.regs(); VH_C; fputs("\"src\":[]", vh_out); VH_E;
+        } else if (op == "steer") {       // re-randomise register r without changing its phase so that its body word is v (a_i += d, b += d at a set key bit)
+            int r; long long v; ls >> r >> v; LweSample* X = m.c + r; int n = m.p->in_out_params->n; int i = 0; while (i < n && !m.sk->lwe_key->key[i]) i++;
+            if (i < n) { uint32_t d = (uint32_t)v - (uint32_t)X->b; X->a[i] = (Torus32)((uint32_t)X->a[i] + d); X->b = (Torus32)((uint32_t)X->b + d); }
         } else if (op == "dec") {
             int r; ls >> r;
             VH_B; vh_i("seq", seq++); VH_C; vh_s("e", "Dec"); VH_C; vh_i("r", r); VH_C; vh_i("bit", bootsSymDecrypt(m.c + r, m.sk)); VH_E;
